@@ -90,17 +90,19 @@ Fixpoint all_some (l : list (option string)) : option (list string) :=
   end.
 Definition optl_eqb (a b : option (list string)) : bool :=
   match a, b with Some x, Some y => list_eqb x y | None, None => true | _, _ => false end.
-(* the secret of an unsalted v2 token occurs in no forwarded token (meaningful for secrets that are
-   longer than the 40-character digest and do not occur in the uuid) *)
+(* the secret of an unsalted v2 token does not occur in what is forwarded for it (meaningful for
+   secrets that are longer than the 40-character digest and do not occur in the uuid) *)
 Definition long_secret (token : string) : option string :=
   match classify token with
   | TV2 uuid secret => if Nat.ltb 40 (String.length secret) && negb (contains secret uuid) then Some secret else None
   | _ => None
   end.
-Definition no_secret_b (tokens outs : list string) : bool :=
-  forallb (fun t => match long_secret t with
-                    | Some s => forallb (fun o => negb (contains s o)) outs
-                    | None => true end) tokens.
+Fixpoint no_secret_b (tokens outs : list string) : bool :=
+  match tokens, outs with
+  | t :: ts, o :: os =>
+    match long_secret t with Some s => negb (contains s o) | None => true end && no_secret_b ts os
+  | _, _ => true
+  end.
 
 Fixpoint tab_get (t : list (string * aca_result)) (k : string) : aca_result :=
   match t with [] => AcaError | (k', v) :: r => if String.eqb k k' then v else tab_get r k end.
